@@ -22,6 +22,7 @@ class Explorer:
         self.timeout_ms = timeout_ms
         self.max_paths = max_paths
         self.base = []            # domain constraints of the symbolic inputs (z3 bools)
+        self.defs, self.defs_light, self._prod = [], [], {}
         self.pc = []
         self.decisions = []
         self.prefix = []
@@ -29,6 +30,8 @@ class Explorer:
         self.stats = dict(paths=0, infeasible=0, solver_queries=0, solver_s=0.0, syntactic=0, branch_solver=0,
                           not_encoded=0, undecided=0, cache_hits=0)
         self._in_path = False
+        self._in_light = False
+        self._s2 = None
 
     # ---- solver plumbing
     def reset(self, base):
@@ -39,6 +42,26 @@ class Explorer:
         for c in self.base:
             self.solver.add(c)
         self.pc, self.decisions, self.prefix, self.model = [], [], [], None
+        self.defs, self.defs_light, self._prod = [], [], {}
+
+    def product(self, a, b, lo, hi):
+        """symbolic x symbolic product as a fresh variable p with the definition p == a*b kept on the side:
+        the lifted code and the specification then share one syntactic term for the product"""
+        ka, kb = a.bv.get_id(), b.bv.get_id()
+        key = (ka, kb) if ka <= kb else (kb, ka)
+        hit = self._prod.get(key)
+        if hit is not None:
+            return hit[0]
+        w = max(T.bits_for(lo, hi), a.w, b.w)
+        p = z3.BitVec(T.fresh_name('prod'), w)
+        rng = z3.And(p >= z3.BitVecVal(lo, w), p <= z3.BitVecVal(hi, w))
+        d = z3.And(p == a.ext(w) * b.ext(w), rng)
+        r = T.mk(p, lo, hi)
+        self._prod[key] = (r, a, b)
+        self.defs.append(d)
+        self.defs_light.append(rng)
+        self.solver.add(rng)
+        return r
 
     def _check(self, *extra):
         t = time.time()
@@ -52,6 +75,9 @@ class Explorer:
             self.solver.pop()
         self.stats['solver_s'] += time.time() - t
         self.stats['solver_queries'] += 1
+        if DEBUG and time.time() - t > 1.0:
+            import traceback
+            print('SLOW QUERY %.1fs' % (time.time() - t), [str(c)[:400] for c in extra], ''.join(traceback.format_stack(limit=14)[-12:-2]))
         if r == z3.unknown:
             raise Undecided(self.solver.reason_unknown())
         return r == z3.sat, m
@@ -162,6 +188,8 @@ class Explorer:
             self.prefix = self.worklist.pop()
             self.decisions, self.pc, self.model = [], [], None
             self.solver.push()
+            for d in self.defs_light:
+                self.solver.add(d)
             T.set_explorer(self)
             res = exc = ne = und = None
             try:
@@ -186,36 +214,57 @@ class Explorer:
                 n += 1
                 self.stats['paths'] += 1
                 model = None
-                try:
-                    model = self.current_model()
-                except (Abort, Undecided):
-                    model = None
+                if not self.defs:
+                    try:
+                        model = self.current_model()
+                    except (Abort, Undecided):
+                        model = None
                 p = Path(list(self.decisions), list(self.pc), res, exc, model, ne, und)
                 yield p
             finally:
                 self.solver.pop()
                 T.set_explorer(self)
 
-    def check_in_path(self, path, *extra):
-        """satisfiability of base + path.pc + extra (used for verdict queries after the path ended)"""
+    def check_in_path(self, path, *extra, exact_timeout_ms=None):
+        """satisfiability of base + path.pc + extra (verdict queries, witnesses).
+        Symbolic products are first left uninterpreted (only their ranges are kept): an over-approximation that is
+        sound for `unsat`.  A `sat` answer is re-checked with the exact definitions p == a*b."""
         t = time.time()
-        self.solver.push()
+        s2 = self._scratch()
+        r, m = None, None
         try:
-            for c in path.pc:
-                self.solver.add(c)
-            for c in extra:
-                self.solver.add(c)
-            r = self.solver.check()
-            m = self.solver.model() if r == z3.sat else None
+            s2.push()
+            try:
+                for c in self.base + self.defs_light + list(path.pc) + list(extra):
+                    s2.add(c)
+                r = s2.check()
+                m = s2.model() if r == z3.sat else None
+                if r == z3.sat and self.defs:
+                    self.stats['exact_product_queries'] = self.stats.get('exact_product_queries', 0) + 1
+                    if exact_timeout_ms is not None:
+                        s2.set('timeout', exact_timeout_ms)
+                    for c in self.defs:
+                        s2.add(c)
+                    r = s2.check()
+                    m = s2.model() if r == z3.sat else None
+            finally:
+                s2.pop()
+                if exact_timeout_ms is not None:
+                    s2.set('timeout', self.timeout_ms)
         finally:
-            self.solver.pop()
-        self.stats['solver_s'] += time.time() - t
-        self.stats['solver_queries'] += 1
+            self.stats['solver_s'] += time.time() - t
+            self.stats['solver_queries'] += 1
         return str(r), m
+
+    def _scratch(self):
+        if getattr(self, '_s2', None) is None:
+            self._s2 = z3.SolverFor('QF_BV')
+            self._s2.set('timeout', self.timeout_ms)
+        return self._s2
 
     def smt2_in_path(self, path, *extra):
         s = z3.Solver()
-        for c in self.base:
+        for c in self.base + self.defs:
             s.add(c)
         for c in path.pc:
             s.add(c)
